@@ -3225,7 +3225,6 @@ class quantized_hswish(quantized_bits):  # pylint: disable=invalid-name
             else self.integer
         ),
     )
-    assert isinstance(integer_bits, int)
 
     flags = [
         str(self.bits),
